@@ -28,6 +28,7 @@ PROPS["C15"] = {
                 "TestC15ProveVerify": T(600, 20000, shards={"quick": 4, "thorough": 16}),
                 "TestC15VerifyRejects": T(1000, 28000, shards={"quick": 4, "thorough": 16}),
                 "TestC15Uniqueness": T(240, 8000, shards={"quick": 4, "thorough": 16}),
+                "TestC15WireBuffer": T(400, 12000, shards={"quick": 4, "thorough": 16}),
                 "TestC15RFCInputs": LIST(),
                 "TestC15EncodingList": LIST(),
                 "TestC15TorsionList": LIST(),
